@@ -199,6 +199,44 @@ func (f *Frame) pureExtern(st *State, fn *ssa.Function, args []Val) Val {
 		}
 	}
 	res := sig.Results()
+	if f.top().relational && !scalar && sig.Variadic() && sig.Recv() == nil {
+		// relational checks: a variadic pure function (fmt.Sprintf, ...) applied to a short literal
+		// argument list is a deterministic function of the format and the boxed arguments
+		var us []*Term
+		okAll := true
+		for i, a := range args {
+			t, isT := a.(*Term)
+			if !isT {
+				okAll = false
+				break
+			}
+			if i == len(args)-1 && t.S == SSlc {
+				n, isLit := SlcLen(t).intVal()
+				if !isLit || n > 6 {
+					okAll = false
+					break
+				}
+				et := sig.Params().At(sig.Params().Len() - 1).Type().(*types.Slice).Elem()
+				es := f.sortOf(et)
+				E := f.ctx.comp(st, f.eName(et), ArrS(SInt, ArrS(SInt, es)))
+				for j := int64(0); j < n; j++ {
+					us = append(us, Select(Select(E, SlcBase(t)), Slot(SlcOff(t), IntLit(j))))
+				}
+				continue
+			}
+			us = append(us, t)
+		}
+		if okAll && len(us) > 0 && res.Len() >= 1 {
+			var out TupleVal
+			for i := 0; i < res.Len(); i++ {
+				out = append(out, f.ctx.uf(fmt.Sprintf("ext!%s!%d!%d", name, i, len(us)), f.sortOf(res.At(i).Type()), us...))
+			}
+			if len(out) == 1 {
+				return out[0]
+			}
+			return out
+		}
+	}
 	if scalar && len(ts) > 0 && res.Len() >= 1 {
 		var out TupleVal
 		for i := 0; i < res.Len(); i++ {
